@@ -209,6 +209,12 @@ class Abs(UniVarFunc):
         else:
             raise ArgumentIndexError(self, argindex)
 
+    def _eval_power(self, exponent):
+        # Abs(u)**2 is u**2 (u is real). Keeping the Abs makes the second derivative 2*Sign(u)**2, which is 0 instead
+        # of 2 at u == 0, where Abs(u)**2 is perfectly smooth.
+        if exponent.is_Integer and exponent.is_even:
+            return self.args[0] ** exponent
+
     def _numpycode(self, printer, **kwargs):
         return r'np.abs(' + printer._print(self.args[0]) + r')'
 
